@@ -88,6 +88,7 @@ func init() {
 		Run: func(c *chk.Ctx, tier string) {
 			c.Clause("C20-D1..D6")
 			ruleLoop(c)
+			ruleLoopSuccessReachesFinish(c)
 			c.Clause("C20-D4")
 			ruleGo(c, pkgGo(c, "server"), 3, "netAccepter watcher, per-connection goroutine, stop watcher")
 			_ = ir.Name
